@@ -14,7 +14,7 @@ The existing test suite (must still pass with your change; ~1-2 minutes):
   cd {wt} && PYTHONPATH={wt}/src PATH=/venv/bin:$PATH SEMGREP_SEND_METRICS=off SEMGREP_ENABLE_VERSION_CHECK=0 /venv/bin/python -m pytest -q -p no:cacheprovider -n 12 tests
 (Without your change, everything passes except tests/test_codetf.py (needs network) and 4 LLM tests in tests/test_context.py; those fail before and after and do not count. There is no network.)
 The CLI entry point is `codemodder.codemodder.run(argv) -> int` (console script `codemodder`); e.g.
-  PYTHONPATH={wt}/src PATH=/venv/bin:$PATH SEMGREP_SEND_METRICS=off SEMGREP_ENABLE_VERSION_CHECK=0 /venv/bin/python -m codemodder <dir> --codemod-include pixee:python/use-set-literal --output out.codetf
+  PYTHONPATH={wt}/src PATH=/venv/bin:$PATH SEMGREP_SEND_METRICS=off SEMGREP_ENABLE_VERSION_CHECK=0 /venv/bin/python -c "import sys; from codemodder.codemodder import run; sys.exit(run(sys.argv[1:]))" <dir> --codemod-include pixee:python/use-set-literal --output out.codetf
 
 THE PROPERTY ({p['id']}: {p['title']}):
   Statement: {p['statement']}
